@@ -30,9 +30,9 @@ def fmt(x):
     return '%.6e' % x
 
 
-def rewrite(text, reverse, negatives=True):
+def rewrite(text, reverse, negatives=True, start=0):
     '''-> (new text); numbers are made distinct: the k-th rewritten line holds score_k, sigma_k'''
-    out, k = [], 0
+    out, k = [], start
     lines = text.split('\n')
     i = 0
     while i < len(lines):
@@ -69,7 +69,7 @@ def rewrite(text, reverse, negatives=True):
             continue
         out.append(ln)
         i += 1
-    return '\n'.join(out), k
+    return '\n'.join(out), k - start
 
 
 def printed(block):
@@ -164,14 +164,14 @@ def one_listing(args):
     import logging
     import warnings
     import sys
-    path, reverse = args
+    path, reverse, start = args
     logging.disable(logging.CRITICAL)
     warnings.filterwarnings('ignore')
     sys.setrecursionlimit(max(sys.getrecursionlimit(), 3000))
     from valjean.eponine.tripoli4.parse import Parser, ParserException
     text = open(path, encoding='utf-8', errors='ignore').read()
-    new, k = rewrite(text, reverse)
-    inp = {'listing': os.path.relpath(path, repo_root()), 'tables_printed_in_reverse_order': reverse, 'rewritten_lines': k}
+    new, k = rewrite(text, reverse, start=start)
+    inp = {'listing': os.path.relpath(path, repo_root()), 'tables_printed_in_reverse_order': reverse, 'rewritten_lines': k, 'first_number_index': start}
     if k == 0:
         return 0, [], []
     fails, n, known_seen = [], 0, []
@@ -202,7 +202,8 @@ def one_listing(args):
 def sweep(tier, seed):
     from concurrent.futures import ProcessPoolExecutor
     files = listings()
-    jobs = [(p, rev) for p in files for rev in (False, True)]
+    starts = (0,) if tier == 'quick' else (0, 1, 2, 3, 4, 5, 6, 1000, 123456)      # other starts move the negative scores and the sigma values to other lines
+    jobs = [(p, rev, st + 7 * (seed % 5)) for p in files for rev in (False, True) for st in starts]
     n, fails, known_seen = 0, [], []
     with ProcessPoolExecutor(max_workers=min(16, os.cpu_count() or 4)) as ex:
         for cnt, fl, ks in ex.map(one_listing, jobs):
@@ -211,7 +212,7 @@ def sweep(tier, seed):
             known_seen.extend(ks)
     return {'name': 'rewritten-listings-native', 'evaluations': n, 'distinct': n, 'failures': fails[:10], 'exhaustive': False, 'known_seen_inputs': known_seen[:3],
             'bound': f'{len(files)} shipped listings that parse; every energy-group line and every "number of batches used" line re-written with pairwise distinct scores of either sign '
-                     '(no zero) and sigma% in 0.5 .. 24.5; tables as printed and with the order of their lines reversed; every edition parsed; every re-written number looked up '
+                     '(no zero) and sigma% in 0.5 .. 24.5' + ('' if tier == 'quick' else ', 9 number sequences') + '; tables as printed and with the order of their lines reversed; every edition parsed; every re-written number looked up '
                      '(value, error = value * sigma% / 100, energy bin = printed boundaries, response_index / score_index of the place of printing); meshes, keff, '
                      'perturbation, Green bands and other layouts, and Apollo3 HDF5 files are NOT covered',
             'samples': [{'listing': 'tests/eponine/tripoli4/data/vov.d.res.ceav5', 'tables_printed_in_reverse_order': True}]}
@@ -219,7 +220,7 @@ def sweep(tier, seed):
 
 def replay(inp):
     path = os.path.join(repo_root(), inp['listing'])
-    n, fails, _ = one_listing((path, bool(inp.get('tables_printed_in_reverse_order'))))
+    n, fails, _ = one_listing((path, bool(inp.get('tables_printed_in_reverse_order')), int(inp.get('first_number_index', 0))))
     return {'reproduced': bool(fails), 'observed': [f['observed'] for f in fails[:2]]}
 
 
